@@ -148,6 +148,20 @@ pub fn bodies(max_variants: usize) -> Vec<(String, Body)> {
             v.push((format!("enum Foo {{ {} }}", vs.join(", ")), Body::Enum(seq)));
         }
     }
+    // long enums: the four styles in rotation (every starting offset) at 5, 8, 9, 16, 17, 33 variants
+    for n in [5usize, 8, 9, 16, 17, 33] {
+        for off in 0..4 {
+            let seq: Vec<Sh> = (0..n).map(|i| SHAPES[(off + i) % 4]).collect();
+            let vs: Vec<String> = seq.iter().enumerate().map(|(i, s)| s.body(&format!("V{i}"))).collect();
+            v.push((format!("enum Foo {{ {} }}", vs.join(", ")), Body::Enum(seq)));
+        }
+        // all variants of one style
+        for s in SHAPES {
+            let seq: Vec<Sh> = vec![s; n];
+            let vs: Vec<String> = seq.iter().enumerate().map(|(i, s)| s.body(&format!("V{i}"))).collect();
+            v.push((format!("enum Foo {{ {} }}", vs.join(", ")), Body::Enum(seq)));
+        }
+    }
     v.push(("union Foo { a: u8, b: u16 }".into(), Body::Union));
     v
 }
